@@ -745,6 +745,18 @@ fn run_case(sched: &Arc<Sched>, case: &Value, idx: usize) {
                 fillers.push(s.waker(|_, _| {}));
             }
             std::mem::forget(fillers);
+            // plain Wakers created before the channel (they share its leaf word)
+            if let Some(ws) = case["wakers"].as_array() {
+                let ws: Vec<i64> = ws.iter().map(|v| v.as_i64().unwrap()).filter(|w| *w != 7 && *w != 1).collect();
+                if !ws.is_empty() {
+                    let s = ms.stk.as_mut().unwrap();
+                    for w in ws.iter() {
+                        let wk = mk_waker(sched, s, *w);
+                        sh.wakers.lock().unwrap().insert(*w, wk);
+                    }
+                    sched.hi(format!(r#""e":"setup","wakers":{},"fillers":0"#, serde_json::to_string(&ws).unwrap()));
+                }
+            }
             let gslot: std::rc::Rc<std::cell::RefCell<Option<ChannelGuard>>> = std::rc::Rc::new(std::cell::RefCell::new(None));
             if case["ctl"].as_bool().unwrap_or(false) {
                 // control Waker (lower slab index than the channel's): its handler drops the guard
